@@ -206,25 +206,400 @@ static bool compare_runs_c03(const RunResult &a, const RunResult &b, std::string
 }
 
 // ================================================================================================
+// Scenario: WELL-FORMED traffic with ground truth (C02 fidelity, C04 pairing, C06 bodies)
+// ================================================================================================
+
+static void wf_plan(Rng &rng, Plan &p, const std::string &prop) {
+    p.prop = prop; p.scenario = "wellformed";
+    wellformed_cfg(rng, p.cfg);
+    GenFeatures f;
+    int n = (int) rng.range(1, 6);
+    if (prop == "C02") { n = (int) rng.range(1, 16); }
+    if (prop == "C04") { n = (int) rng.range(1, rng.chance(1, 4) ? 40 : 12); f.max_body = 60; f.many_headers = false; f.close_delim = rng.coin(); }
+    if (prop == "C06") { f.max_body = rng.chance(1, 4) ? 9000 : 400; f.hostile_body = true; f.many_headers = false; }
+    Script s = random_script(rng, f, n, 0);
+    p.conns.resize(1);
+    build_conn_from_script(rng, s, p.conns[0], true);
+    ConnPlan &cp = p.conns[0];
+    std::vector<Extent> m0, m1; for (auto &x : cp.xchg) { m0.push_back(x.req); m1.push_back(x.res); }
+    static const size_t MEANS[] = {1, 2, 3, 5, 8, 16, 64, 512};
+    int sched = (int) rng.below(10);
+    if (prop == "C02" && sched < 5) {
+        // the schedule the fidelity claim is made for: one chunk per message, request i before response i
+        std::vector<size_t> c0 = choose_cuts(rng, cp.stream[0], m0, ST_WHOLE, 0), c1 = choose_cuts(rng, cp.stream[1], m1, ST_WHOLE, 0);
+        skeleton_ops(rng, cp, 0, c0, c1, p.ops);
+        return;
+    }
+    int s0 = (int) rng.below(ST_ONECUT), s1 = (int) rng.below(ST_ONECUT);
+    auto c0 = choose_cuts(rng, cp.stream[0], m0, s0, MEANS[rng.below(8)]);
+    auto c1 = choose_cuts(rng, cp.stream[1], m1, s1, MEANS[rng.below(8)]);
+    static const int BIAS[] = {20, 50, 80, 100};
+    interleave_ops(rng, cp, 0, c0, c1, BIAS[rng.below(4)], true, false, p.ops);
+}
+
+static const TxRec *tx_of_exchange(const RunResult &r, size_t conn, size_t i) {
+    if (conn >= r.conns.size() || i >= r.conns[conn].txs.size()) return nullptr;
+    return &r.txs[(size_t) r.conns[conn].txs[i]];
+}
+
+// C02: everything the spec determines is reported exactly (keys without '@' are dump keys)
+static bool check_fidelity(const Plan &p, const RunResult &r, const char *pfx, std::string &oracle, std::string &detail) {
+    for (size_t c = 0; c < p.conns.size(); c++) {
+        const ConnPlan &cp = p.conns[c];
+        if (r.conns[c].txs.size() != cp.xchg.size()) { oracle = std::string(pfx) + ".tx_count"; detail = strfmt("conn %zu: %zu exchanges sent, %zu transactions reported", c, cp.xchg.size(), r.conns[c].txs.size()); return false; }
+        for (size_t i = 0; i < cp.xchg.size(); i++) {
+            const TxRec *t = tx_of_exchange(r, c, i);
+            if (!t || !t->have_dump) { oracle = std::string(pfx) + ".tx_missing"; detail = strfmt("exchange %zu", i); return false; }
+            for (auto &e : cp.xchg[i].expect) {
+                const std::string &k = e.first;
+                if (k[0] == '@') {
+                    if (k == "@host.ci") { const Bytes *v = dump_get(t->dump, "req.host"); if (!v || lower(*v) != lower(e.second)) { oracle = std::string(pfx) + ".req.host"; detail = strfmt("tx#%zu expected '%s' got '%s'", i, esc_encode(e.second).c_str(), v ? esc_encode(*v).c_str() : "-"); return false; } }
+                    else if (k == "@param.count") { const Bytes *v = dump_get(t->dump, "req.param.count"); if (!v || *v != e.second) { oracle = std::string(pfx) + ".req.param.count"; detail = strfmt("tx#%zu expected %s got %s", i, e.second.c_str(), v ? v->c_str() : "-"); return false; } }
+                    continue;
+                }
+                const Bytes *v = dump_get(t->dump, k);
+                if (!v || *v != e.second) {
+                    std::string kk = k; for (auto &ch : kk) if (isdigit((unsigned char) ch)) ch = 'N';
+                    oracle = std::string(pfx) + "." + kk;
+                    detail = strfmt("tx#%zu %s: sent '%s' reported '%s'", i, k.c_str(), esc_encode(e.second.substr(0, 100)).c_str(), v ? esc_encode(v->substr(0, 100)).c_str() : "<absent>");
+                    return false;
+                }
+            }
+            for (auto &kv : t->dump) if (kv.first.size() > 7 && kv.first.compare(kv.first.size() - 7, 7, ".lookup") == 0 && kv.second != "ok") {
+                oracle = std::string(pfx) + ".header_lookup_case_insensitive"; detail = strfmt("tx#%zu %s", i, kv.first.c_str()); return false;
+            }
+        }
+    }
+    return true;
+}
+
+static long expect_num(const Exchange &x, const char *key, long def) { for (auto &e : x.expect) if (e.first == key) return atol(e.second.c_str()); return def; }
+static const Bytes *expect_get(const Exchange &x, const char *key) { for (auto &e : x.expect) if (e.first == key) return &e.second; return nullptr; }
+
+// C06 ground-truth half
+static bool check_bodies(const Plan &p, const RunResult &r, std::string &oracle, std::string &detail) {
+    for (size_t c = 0; c < p.conns.size(); c++) {
+        const ConnPlan &cp = p.conns[c];
+        if (r.conns[c].txs.size() != cp.xchg.size()) { oracle = "C06.tx_count"; detail = strfmt("%zu exchanges sent, %zu transactions reported", cp.xchg.size(), r.conns[c].txs.size()); return false; }
+        for (size_t i = 0; i < cp.xchg.size(); i++) {
+            const TxRec *t = tx_of_exchange(r, c, i);
+            if (!t) { oracle = "C06.tx_missing"; return false; }
+            for (int s = 0; s < 2; s++) {
+                const Bytes *body = expect_get(cp.xchg[i], s ? "@body.res" : "@body.req");
+                if (!body) continue;
+                const char *side = s ? "res" : "req";
+                if (t->body[s] != *body) {
+                    size_t k = 0; while (k < body->size() && k < t->body[s].size() && (*body)[k] == t->body[s][k]) k++;
+                    oracle = strfmt("C06.%s_body_bytes", side); detail = strfmt("tx#%zu sent %zu bytes, delivered %zu bytes, first difference at offset %zu", i, body->size(), t->body[s].size(), k); return false;
+                }
+                long hasbody = expect_num(cp.xchg[i], s ? "@hasbody.res" : "@hasbody.req", 0);
+                if (hasbody && t->n_complete[s] && t->eob_before_complete[s] < 1) { oracle = strfmt("C06.%s_no_end_of_body_marker", side); detail = strfmt("tx#%zu", i); return false; }
+                const Bytes *el = dump_get(t->dump, s ? "res.entlen" : "req.entlen"), *ml = dump_get(t->dump, s ? "res.msglen" : "req.msglen");
+                if (el && atol(el->c_str()) != (long) body->size()) { oracle = strfmt("C06.%s_entity_len", side); detail = strfmt("tx#%zu entity_len=%s body=%zu", i, el->c_str(), body->size()); return false; }
+                long wire = expect_num(cp.xchg[i], s ? "@msglen.res" : "@msglen.req", -1);
+                if (ml && wire >= 0 && atol(ml->c_str()) != wire) { oracle = strfmt("C06.%s_message_len", side); detail = strfmt("tx#%zu message_len=%s wire=%ld", i, ml->c_str(), wire); return false; }
+            }
+        }
+    }
+    return true;
+}
+
+// C04: pairing by the ids the actors embedded, order, count, completion, and the pipelining indicator
+static int id_in_uri(const Bytes &uri) { size_t p = uri.find("/id"); if (p == std::string::npos) return -1; return atoi(uri.c_str() + p + 3); }
+
+static bool check_pairing(const Plan &p, const RunResult &r, std::string &oracle, std::string &detail) {
+    const ConnPlan &cp = p.conns[0];
+    size_t n = cp.xchg.size();
+    if (r.conns[0].txs.size() != n) { oracle = "C04.tx_count"; detail = strfmt("%zu exchanges sent, %zu transactions reported", n, r.conns[0].txs.size()); return false; }
+    for (size_t i = 0; i < n; i++) {
+        const TxRec *t = tx_of_exchange(r, 0, i);
+        const Bytes *uri = dump_get(t->dump, "req.uri");
+        int rid = uri ? id_in_uri(*uri) : -1, sid = -1;
+        for (size_t h = 0;; h++) {
+            const Bytes *nm = dump_get(t->dump, strfmt("res.hdr.%zu.name", h)); if (!nm) break;
+            if (lower(*nm) == "x-sim-id") { const Bytes *v = dump_get(t->dump, strfmt("res.hdr.%zu.value", h)); if (v) sid = atoi(v->c_str()); }
+        }
+        if (rid != (int) i) { oracle = "C04.request_order"; detail = strfmt("transaction %zu carries request id %d", i, rid); return false; }
+        if (sid != (int) i) { oracle = "C04.response_paired_with_wrong_request"; detail = strfmt("transaction %zu: request id %d, response id %d", i, rid, sid); return false; }
+        if (t->n_complete[2] != 1) { oracle = "C04.not_complete_after_close"; detail = strfmt("transaction %zu: TRANSACTION_COMPLETE delivered %d times", i, t->n_complete[2]); return false; }
+    }
+    // pipelining indicator, from the op list (never from libhtp state), with the tolerance window of DESIGN C04
+    long cur[2] = {0, 0};
+    bool must_set = false, may_set = false;
+    for (auto &op : p.ops) {
+        int d = op.kind == 'Q' ? 0 : op.kind == 'S' ? 1 : -1; if (d < 0) continue;
+        long a = cur[d], b = a + op.n; cur[d] = b;
+        if (d != 0) continue;
+        for (size_t i = 1; i < n; i++) {
+            const Exchange &x = cp.xchg[i];
+            long first_line_end = x.req.a; { size_t e = cp.stream[0].find("\r\n", (size_t) x.req.a); first_line_end = e == std::string::npos ? x.req.b : (long) e + 2; }
+            // libhtp notices a new message only once its first line is complete (both directions probe the line), so
+            // "begun" has a window too: certainly begun = first line completely offered, certainly not = no byte offered
+            const Exchange &pv = cp.xchg[i - 1];
+            long prev_res_line_end; { size_t e = cp.stream[1].find("\r\n", (size_t) pv.res.a); prev_res_line_end = e == std::string::npos ? pv.res.b : (long) e + 2; }
+            bool prev_response_certainly_begun = cur[1] >= prev_res_line_end;
+            bool prev_response_certainly_not_begun = cur[1] <= pv.res.a;
+            if (a <= x.req.a && x.req.a < b && !prev_response_certainly_begun) may_set = true;
+            if (a < first_line_end && first_line_end <= b && prev_response_certainly_not_begun) must_set = true;
+        }
+    }
+    bool flag = (r.conns[0].conn_flags & 1) != 0;
+    if (must_set && !flag) { oracle = "C04.pipelining_flag_missing"; detail = "a request line was completely offered before the response to the previous request had begun, flag not set"; return false; }
+    if (!may_set && flag) { oracle = "C04.pipelining_flag_spurious"; detail = "every request began only after the previous response had begun, flag set"; return false; }
+    return true;
+}
+
+// ================================================================================================
+// Scenario: C11 ambiguity indicators (trigger applied by the actor => flag must be set)
+// ================================================================================================
+
+enum { FL_SMUGGLING = 0x100, FL_INVALID_T_E = 0x400, FL_HOST_MISSING = 0x1000, FL_HOST_AMBIGUOUS = 0x2000 };
+static const unsigned long long FL_HOSTU_INVALID = 0x2000000ULL, FL_HOSTH_INVALID = 0x4000000ULL, FL_REQUEST_INVALID = 0x100000000ULL, FL_INVALID_C_L = 0x200000000ULL;
+
+static std::string recase(Rng &r, const std::string &s) { std::string o = s; int m = (int) r.below(4); for (auto &c : o) { if (m == 1) c = (char) tolower((unsigned char) c); else if (m == 2) c = (char) toupper((unsigned char) c); else if (m == 3 && r.coin()) c = (char) (isupper((unsigned char) c) ? tolower((unsigned char) c) : toupper((unsigned char) c)); } return o; }
+
+static const char *C11_TRIGGERS[] = {"te_and_cl", "two_cl_same", "two_cl_diff", "folded_cl", "chunked_http10", "cl_empty", "cl_nondigit", "cl_overflow", "te_unsupported",
+                                     "host_differs", "port_differs", "host_missing_11", "hosth_invalid_char", "hosth_empty_label", "hosth_bad_port", "hostu_invalid_char", "hostu_bad_port",
+                                     "hosth_ipv6_unclosed", "te_and_cl_te_last"};
+static const int C11_NTRIG = (int) (sizeof C11_TRIGGERS / sizeof *C11_TRIGGERS);
+
+static void c11_plan(Rng &rng, Plan &p, uint64_t variant) {
+    p.prop = "C11"; p.scenario = "trigger";
+    wellformed_cfg(rng, p.cfg);
+    GenFeatures f; f.interim100 = false; f.http10 = false; f.absolute_uri = false; f.max_body = 60; f.head = false;
+    int n = (int) rng.range(1, 3);
+    Script s = random_script(rng, f, n, 0);
+    int trig = (int) ((variant + rng.below(C11_NTRIG)) % C11_NTRIG);
+    p.cfg.set("c11_trigger", trig);
+    const std::string tname = C11_TRIGGERS[trig];
+    bool kills_stream = tname == "cl_empty" || tname == "cl_nondigit" || tname == "cl_overflow" || tname == "te_unsupported";
+    int k = kills_stream ? n - 1 : (int) rng.below((uint64_t) n);
+    MsgSpec &q = s.req[(size_t) k];
+    // strip whatever the base message had in the fields the trigger owns
+    { std::vector<HeaderSpec> keep; for (auto &h : q.headers) { std::string ln = lower(h.name); if (ln != "content-length" && ln != "transfer-encoding" && ln != "host" && ln != "expect" && ln != "content-type") keep.push_back(h); } q.headers.swap(keep); }
+    q.trailers.clear(); q.chunk_ext.clear(); q.chunk_sizes.clear(); q.interim.clear();
+    s.res[(size_t) k].interim.clear();
+    q.method = "POST"; q.version = "HTTP/1.1"; q.target = strfmt("/id%d/c11", k);
+    Bytes body; { size_t bl = (size_t) rng.range(1, 40); for (size_t i = 0; i < bl; i++) body.push_back((char) ('a' + rng.below(26))); }
+    std::string host = "www.example.com";
+    unsigned long long must = 0; long te_expect = -1;
+    std::vector<HeaderSpec> add;
+    auto H = [&](const std::string &name, const Bytes &value) { HeaderSpec h; h.name = recase(rng, name); h.value = value; static const char *OWS[] = {"", " ", "\t", "  "}; h.ows1 = OWS[rng.below(4)]; h.ows2 = rng.chance(1, 4) ? OWS[rng.below(4)] : ""; return h; };
+    auto chunked_body = [&]() { q.framing = FR_CHUNKED; q.body = q.payload = body; size_t left = body.size(); while (left) { size_t c = (size_t) rng.range(1, (int64_t) left); q.chunk_sizes.push_back(c); left -= c; } };
+    auto cl_body = [&]() { q.framing = FR_CL; q.body = q.payload = body; };
+    bool host_hdr = true; Bytes host_value = host;
+    if (tname == "te_and_cl" || tname == "te_and_cl_te_last") {
+        chunked_body(); HeaderSpec te = H("Transfer-Encoding", recase(rng, "chunked")), cl = H("Content-Length", strfmt("%d", (int) rng.range(0, 500)));
+        if (tname == "te_and_cl") { add.push_back(te); add.push_back(cl); } else { add.push_back(cl); add.push_back(te); }
+        must = FL_SMUGGLING; te_expect = 3;
+    } else if (tname == "two_cl_same") { cl_body(); add.push_back(H("Content-Length", strfmt("%zu", body.size()))); add.push_back(H("Content-Length", strfmt("%zu", body.size()))); must = FL_SMUGGLING; }
+    else if (tname == "two_cl_diff") { cl_body(); add.push_back(H("Content-Length", strfmt("%zu", body.size()))); add.push_back(H("Content-Length", strfmt("%zu", body.size() + 1 + (size_t) rng.below(9)))); must = FL_SMUGGLING; }
+    else if (tname == "folded_cl") { cl_body(); HeaderSpec h = H("Content-Length", ""); h.ows2 = ""; h.folds.push_back((rng.coin() ? " " : "\t") + strfmt("%zu", body.size())); add.push_back(h); must = FL_SMUGGLING; }
+    else if (tname == "chunked_http10") { q.version = "HTTP/1.0"; chunked_body(); add.push_back(H("Transfer-Encoding", recase(rng, "chunked"))); must = FL_SMUGGLING; te_expect = 3; }
+    else if (tname == "cl_empty") { add.push_back(H("Content-Length", rng.coin() ? "" : " ")); must = FL_REQUEST_INVALID | FL_INVALID_C_L; }
+    else if (tname == "cl_nondigit") { static const char *V[] = {"abc", "x", "ten", "--", "?", "length"}; add.push_back(H("Content-Length", V[rng.below(6)])); must = FL_REQUEST_INVALID | FL_INVALID_C_L; }
+    else if (tname == "cl_overflow") { static const char *V[] = {"9223372036854775808", "18446744073709551616", "99999999999999999999999", "9223372036854775807000"}; add.push_back(H("Content-Length", V[rng.below(4)])); must = FL_REQUEST_INVALID | FL_INVALID_C_L; }
+    else if (tname == "te_unsupported") { static const char *V[] = {"gzip", "identity", "deflate", "compress", "chunke", "xchunked", "chunkedx"}; add.push_back(H("Transfer-Encoding", recase(rng, V[rng.below(7)]))); must = FL_REQUEST_INVALID | FL_INVALID_T_E; }
+    else if (tname == "host_differs") { q.target = "http://" + recase(rng, host) + strfmt("/id%d/c11", k); static const char *O[] = {"evil.example.com", "www.example.org", "example.com", "www.example.com.evil.net", "w.example.com"}; host_value = O[rng.below(5)]; must = FL_HOST_AMBIGUOUS; }
+    else if (tname == "port_differs") { int p1 = (int) rng.range(1, 65535), p2 = (int) rng.range(1, 65535); if (p2 == p1) p2 = p1 == 65535 ? 1 : p1 + 1; q.target = "http://" + host + strfmt(":%d/id%d/c11", p1, k); host_value = host + strfmt(":%d", p2); must = FL_HOST_AMBIGUOUS; }
+    else if (tname == "host_missing_11") { host_hdr = false; must = FL_HOST_MISSING; }
+    else if (tname == "hosth_invalid_char") { static const char *O[] = {"www.exa$mple.com", "www.ex ample.com", "www.example!.com", "ww~w.example.com", "www.example.com/x", "www.exam\"ple.com"}; host_value = O[rng.below(6)]; must = FL_HOSTH_INVALID; }
+    else if (tname == "hosth_empty_label") { static const char *O[] = {"www..example.com", ".example.com", "www.example..com", "a...b"}; host_value = O[rng.below(4)]; must = FL_HOSTH_INVALID; }
+    else if (tname == "hosth_bad_port") { static const char *O[] = {"www.example.com:99999", "www.example.com:0", "www.example.com:abc", "www.example.com:", "www.example.com:-1", "www.example.com:65536"}; host_value = O[rng.below(6)]; must = FL_HOSTH_INVALID; }
+    else if (tname == "hostu_invalid_char") { static const char *O[] = {"www.exa$mple.com", "www.example!.com", "www..example.com", "ww~w.example.com"}; std::string h = O[rng.below(4)]; q.target = "http://" + h + strfmt("/id%d/c11", k); host_value = h; must = FL_HOSTU_INVALID; }
+    else if (tname == "hostu_bad_port") { static const char *O[] = {"99999", "0", "65536", "123456789"}; std::string pt = O[rng.below(4)]; q.target = "http://" + host + ":" + pt + strfmt("/id%d/c11", k); host_value = host; must = FL_HOSTU_INVALID; }
+    else if (tname == "hosth_ipv6_unclosed") { static const char *O[] = {"[::1", "[::1]x", "[fe80::1"}; host_value = O[rng.below(3)]; must = FL_HOSTH_INVALID; }
+    if (q.framing == FR_NONE && !kills_stream && q.body.empty()) { /* no body */ }
+    if (host_hdr) add.push_back(H("Host", host_value));
+    for (auto &h : add) {
+        // keep the relative order of the added fields (it matters for te/cl), place them at random among the others
+        size_t at = (size_t) rng.below(q.headers.size() + 1);
+        static size_t last_at; (void) last_at;
+        q.headers.insert(q.headers.begin() + (long) at, h);
+    }
+    // re-establish the relative order of the trigger's own fields
+    if (add.size() >= 2) {
+        std::vector<size_t> pos; for (size_t i = 0; i < q.headers.size(); i++) for (auto &h : add) if (&h != nullptr && q.headers[i].name == h.name && q.headers[i].value == h.value && q.headers[i].folds == h.folds) { pos.push_back(i); break; }
+        std::sort(pos.begin(), pos.end()); pos.erase(std::unique(pos.begin(), pos.end()), pos.end());
+        if (pos.size() == add.size()) for (size_t i = 0; i < add.size(); i++) q.headers[pos[i]] = add[i];
+    }
+    if (q.framing == FR_NONE) { q.body.clear(); q.payload.clear(); }
+    q.xexpect.clear();
+    q.xexpect.push_back(std::make_pair("@flags.set", strfmt("%llu", must)));
+    if (te_expect >= 0) q.xexpect.push_back(std::make_pair("req.te", strfmt("%ld", te_expect)));
+    q.xexpect.push_back(std::make_pair("@c11", tname));
+    if (kills_stream) { s.res.resize((size_t) k); }   // the server never answers a request the parser gives up on
+    p.conns.resize(1);
+    build_conn_from_script(rng, s, p.conns[0], true);
+    ConnPlan &cp = p.conns[0];
+    std::vector<Extent> m0, m1; for (auto &x : cp.xchg) { m0.push_back(x.req); if (x.res.b > x.res.a) m1.push_back(x.res); }
+    static const size_t MEANS[] = {1, 2, 3, 5, 8, 16, 64, 512};
+    int s0 = (int) rng.below(ST_ONECUT), s1 = (int) rng.below(ST_ONECUT);
+    auto c0 = choose_cuts(rng, cp.stream[0], m0, s0, MEANS[rng.below(8)]);
+    auto c1 = choose_cuts(rng, cp.stream[1], m1, s1, MEANS[rng.below(8)]);
+    interleave_ops(rng, cp, 0, c0, c1, 50, true, false, p.ops);
+}
+
+static bool check_c11(const Plan &p, const RunResult &r, std::string &oracle, std::string &detail, Agg *agg) {
+    const ConnPlan &cp = p.conns[0];
+    for (size_t i = 0; i < cp.xchg.size(); i++) {
+        const Bytes *must = expect_get(cp.xchg[i], "@flags.set");
+        if (!must) {
+            // untouched base message: evidence only (the statement is one-directional)
+            const TxRec *t = tx_of_exchange(r, 0, i);
+            if (t && agg) { const Bytes *fl = dump_get(t->dump, "flags"); unsigned long long f = fl ? strtoull(fl->c_str(), 0, 10) : 0; if (f & (FL_SMUGGLING | FL_INVALID_T_E | FL_HOST_AMBIGUOUS | FL_HOSTU_INVALID | FL_HOSTH_INVALID | FL_REQUEST_INVALID | FL_INVALID_C_L)) agg->inc("c11.control_with_flag"); else agg->inc("c11.control_clean"); }
+            continue;
+        }
+        const Bytes *name = expect_get(cp.xchg[i], "@c11");
+        std::string tn = name ? *name : "?";
+        const TxRec *t = tx_of_exchange(r, 0, i);
+        if (!t || !t->have_dump) { oracle = "C11.tx_missing." + tn; detail = strfmt("exchange %zu not reported", i); return false; }
+        const Bytes *fl = dump_get(t->dump, "flags");
+        unsigned long long f = fl ? strtoull(fl->c_str(), 0, 10) : 0, m = strtoull(must->c_str(), 0, 10);
+        if ((f & m) != m) { oracle = "C11.flag_not_set." + tn; detail = strfmt("tx#%zu flags=0x%llx required=0x%llx", i, f, m); return false; }
+        const Bytes *te = expect_get(cp.xchg[i], "req.te");
+        if (te) { const Bytes *v = dump_get(t->dump, "req.te"); if (!v || *v != *te) { oracle = "C11.not_framed_by_chunked." + tn; detail = strfmt("tx#%zu request_transfer_coding=%s", i, v ? v->c_str() : "-"); return false; } }
+        const Bytes *body = expect_get(cp.xchg[i], "@body.req");
+        if (body && (te || tn == "two_cl_same" || tn == "two_cl_diff" || tn == "folded_cl") && t->body[0] != *body) { oracle = "C11.body_framing." + tn; detail = strfmt("tx#%zu sent %zu body bytes, delivered %zu", i, body->size(), t->body[0].size()); return false; }
+        if (agg) agg->inc("c11.trigger." + tn);
+    }
+    return true;
+}
+
+// ================================================================================================
 // C16 material (CONNECT scripts are also mixed into the chaos traffic)
 // ================================================================================================
 
-Script connect_script(Rng &r, int id_base) {
+static Bytes tls_like(Rng &r, size_t n) {
+    Bytes b = std::string("\x16\x03\x01\x00", 4);   // a TLS record header: contains a NUL early, as real handshakes do
+    while (b.size() < n) b.push_back((char) r.below(256));
+    return b;
+}
+
+// kind: 0 refused/plain HTTP follows, 1 2xx + TLS-looking payload (tunnel), 2 101 upgrade (tunnel); -1 = random
+Script connect_script_ex(Rng &r, int id_base, int kind, int &connect_idx, bool &expect_tunnel, Bytes &tunnel_req, Bytes &tunnel_res) {
     GenFeatures f; f.interim100 = false;
     Script s;
+    if (kind < 0) kind = (int) r.below(3);
     int pre = (int) r.range(0, 2);
     if (pre) s = random_script(r, f, pre, id_base);
     for (auto &m : s.res) if (m.framing == FR_CLOSE) { m.framing = FR_CL; HeaderSpec cl; cl.name = "Content-Length"; cl.value = strfmt("%zu", m.body.size()); m.headers.push_back(cl); }
-    MsgSpec q; q.method = "CONNECT"; q.target = "tunnel.example:443"; q.version = "HTTP/1.1";
-    { HeaderSpec h; h.name = "Host"; h.value = "tunnel.example:443"; q.headers.push_back(h); }
-    MsgSpec p; p.is_request = false;
-    static const int ST[] = {200, 200, 204, 407, 403, 502, 200};
-    p.status = ST[r.below(7)]; p.reason = p.status < 300 ? "Connection established" : "Denied";
-    if (p.status >= 300) { p.framing = FR_CL; p.body = p.payload = "denied"; HeaderSpec cl; cl.name = "Content-Length"; cl.value = "6"; p.headers.push_back(cl); }
+    connect_idx = pre;
+    MsgSpec q, p; p.is_request = false;
+    expect_tunnel = false;
+    if (kind == 2) {
+        q.method = "GET"; q.target = strfmt("/id%d/upgrade", id_base + pre); q.version = "HTTP/1.1";
+        { HeaderSpec h; h.name = "Host"; h.value = "ws.example"; q.headers.push_back(h); }
+        { HeaderSpec h; h.name = "Upgrade"; h.value = "websocket"; q.headers.push_back(h); }
+        { HeaderSpec h; h.name = "Connection"; h.value = "Upgrade"; q.headers.push_back(h); }
+        p.status = 101; p.reason = "Switching Protocols";
+        { HeaderSpec h; h.name = "Upgrade"; h.value = "websocket"; p.headers.push_back(h); }
+        { HeaderSpec h; h.name = "X-Sim-Id"; h.value = strfmt("%d", id_base + pre); p.headers.push_back(h); }
+        expect_tunnel = true;
+    } else {
+        q.method = "CONNECT"; q.target = "tunnel.example:443"; q.version = "HTTP/1.1";
+        { HeaderSpec h; h.name = "Host"; h.value = "tunnel.example:443"; q.headers.push_back(h); }
+        if (r.coin()) { HeaderSpec h; h.name = "Proxy-Connection"; h.value = "keep-alive"; q.headers.push_back(h); }
+        if (kind == 1) { static const int ST[] = {200, 200, 204, 299}; p.status = ST[r.below(4)]; p.reason = "Connection established"; expect_tunnel = true; }
+        else if (r.chance(1, 3)) { static const int ST[] = {200, 204}; p.status = ST[r.below(2)]; p.reason = "Connection established"; }   // tunnel carrying plain HTTP
+        else { static const int ST[] = {407, 403, 502, 400, 500, 302}; p.status = ST[r.below(6)]; p.reason = "Denied"; p.framing = FR_CL; p.body = p.payload = "denied"; HeaderSpec cl; cl.name = "Content-Length"; cl.value = "6"; p.headers.push_back(cl); }
+        { HeaderSpec h; h.name = "X-Sim-Id"; h.value = strfmt("%d", id_base + pre); p.headers.push_back(h); }
+    }
     s.req.push_back(q); s.res.push_back(p);
-    int post = (int) r.range(0, 2);
-    if (post) { Script t = random_script(r, f, post, id_base + 10); for (auto &m : t.req) s.req.push_back(m); for (auto &m : t.res) s.res.push_back(m); }
+    tunnel_req.clear(); tunnel_res.clear();
+    if (expect_tunnel) {
+        if (r.chance(4, 5)) tunnel_req = tls_like(r, (size_t) r.range(5, 300));
+        if (!tunnel_req.empty() && r.chance(4, 5)) tunnel_res = tls_like(r, (size_t) r.range(5, 300));
+    } else {
+        int post = (int) r.range(0, 3);
+        if (post) { Script t = random_script(r, f, post, id_base + pre + 1); for (auto &m : t.req) s.req.push_back(m); for (auto &m : t.res) s.res.push_back(m); }
+    }
     return s;
+}
+
+Script connect_script(Rng &r, int id_base) {
+    int ci; bool tun; Bytes a, b;
+    Script s = connect_script_ex(r, id_base, (int) r.below(3) == 0 ? 1 : 0, ci, tun, a, b);
+    // in the chaos mix the tunnel payload is simply appended as an opaque "message"
+    if (tun && !a.empty()) { MsgSpec m; m.method = std::string(a.data(), a.size()); m.target = ""; m.version = ""; (void) m; }
+    return s;
+}
+
+static void c16_plan(Rng &rng, Plan &p) {
+    p.prop = "C16"; p.scenario = "connect";
+    wellformed_cfg(rng, p.cfg);
+    int ci; bool tun; Bytes treq, tres;
+    Script s = connect_script_ex(rng, 0, -1, ci, tun, treq, tres);
+    p.conns.resize(1);
+    build_conn_from_script(rng, s, p.conns[0], true);
+    ConnPlan &cp = p.conns[0];
+    p.cfg.set("c16_connect_idx", ci); p.cfg.set("c16_expect_tunnel", tun ? 1 : 0);
+    if (tun && (!treq.empty() || !tres.empty())) {
+        // the tunnel payload is a pseudo exchange: the client's bytes are offered before the server's (the client speaks first)
+        Exchange x; x.req.a = (long) cp.stream[0].size(); cp.stream[0] += treq; x.req.b = (long) cp.stream[0].size(); x.req_head_end = x.req.b;
+        x.res.a = (long) cp.stream[1].size(); cp.stream[1] += tres; x.res.b = (long) cp.stream[1].size(); x.res_head_end = x.res.b;
+        x.expect.push_back(std::make_pair("@tunnel", "1"));
+        // after an upgrade the client cannot know the tunnel exists before it has the 101: its tunnel bytes come after it.
+        // (After CONNECT, early client bytes are part of the scenario: libhtp must hold them back itself.)
+        bool is_connect = cp.stream[0].compare((size_t) cp.xchg[(size_t) ci].req.a, 8, "CONNECT ") == 0;
+        if (!is_connect) x.expect.push_back(std::make_pair("@req_after_prev_res", "1"));
+        cp.xchg.push_back(x);
+    }
+    std::vector<Extent> m0, m1; for (auto &x : cp.xchg) { m0.push_back(x.req); m1.push_back(x.res); }
+    static const size_t MEANS[] = {1, 2, 3, 5, 8, 16, 64, 512};
+    int s0 = (int) rng.below(ST_ONECUT), s1 = (int) rng.below(ST_ONECUT);
+    auto c0 = choose_cuts(rng, cp.stream[0], m0, s0, MEANS[rng.below(8)]);
+    auto c1 = choose_cuts(rng, cp.stream[1], m1, s1, MEANS[rng.below(8)]);
+    for (auto &x : cp.xchg) for (auto &e : x.expect) if (e.first == "@req_after_prev_res" && x.req.a > 0) { c0.push_back((size_t) x.req.a); std::sort(c0.begin(), c0.end()); c0.erase(std::unique(c0.begin(), c0.end()), c0.end()); }
+    static const int BIAS[] = {20, 50, 80, 100, 100};
+    interleave_ops(rng, cp, 0, c0, c1, BIAS[rng.below(5)], true, false, p.ops);
+}
+
+static bool check_c16(const Plan &p, const RunResult &r, std::string &oracle, std::string &detail) {
+    const ConnPlan &cp = p.conns[0];
+    size_t ci = (size_t) p.cfg.get("c16_connect_idx", 0);
+    bool tun = p.cfg.get("c16_expect_tunnel", 0) != 0;
+    if (ci >= cp.xchg.size()) return true;
+    const Exchange &cx = cp.xchg[ci];
+    bool is_connect = cp.stream[0].compare((size_t) cx.req.a, 8, "CONNECT ") == 0;
+    // (i) nothing beyond the CONNECT head is consumed before any byte of its response has been offered
+    long req_consumed = 0, res_consumed = 0, res_offered = 0;
+    int tunnel_seen[2] = {0, 0};
+    for (auto &c : r.calls) {
+        int d = (c.kind == 'Q' || c.kind == 'q') ? 0 : 1;
+        long took = c.rc == 5 ? c.consumed : c.len;
+        if (d == 1) { res_offered = std::max(res_offered, res_consumed + c.len); res_consumed += took; }
+        else {
+            req_consumed += took;
+            if (is_connect && res_offered <= cx.res.a && req_consumed > cx.req.b) {
+                oracle = "C16.consumed_past_connect_before_response"; detail = strfmt("request direction consumed %ld bytes, CONNECT head ends at %ld, no byte of its response offered yet", req_consumed, cx.req.b); return false;
+            }
+        }
+        // (ii) once a direction reported TUNNEL it keeps doing so and runs no callbacks
+        if (tunnel_seen[d]) {
+            if (c.rc != 4) { oracle = "C16.left_tunnel_mode"; detail = strfmt("dir=%d rc=%d after TUNNEL", d, c.rc); return false; }
+            if (c.cbs > 0) { oracle = "C16.callbacks_in_tunnel_mode"; detail = strfmt("dir=%d %d callbacks", d, c.cbs); return false; }
+        }
+        if (c.rc == 4) tunnel_seen[d] = 1;
+    }
+    if (tun) {
+        // tunnel mode must have been reached by the time everything was offered: for an upgrade (101) always; for CONNECT once
+        // the client's first tunnel bytes (which contain a NUL, ending the probe line) have been offered after the 2xx answer
+        bool req_after = (long) cp.stream[0].size() > cx.req.b;
+        bool expect_mode = !is_connect || req_after;
+        if (expect_mode && r.conns[0].pre_close_status[0] >= 0) {
+            if (r.conns[0].pre_close_status[0] != 4) { oracle = "C16.request_side_not_in_tunnel_mode"; detail = strfmt("request stream state %d after all traffic was offered", r.conns[0].pre_close_status[0]); return false; }
+            if (r.conns[0].pre_close_status[1] != 4) { oracle = "C16.response_side_not_in_tunnel_mode"; detail = strfmt("response stream state %d after all traffic was offered", r.conns[0].pre_close_status[1]); return false; }
+        }
+        if (r.conns[0].tx_count_at_tunnel >= 0 && (int) r.conns[0].txs.size() != r.conns[0].tx_count_at_tunnel) { oracle = "C16.transactions_created_in_tunnel_mode"; detail = strfmt("%d at tunnel start, %zu at the end", r.conns[0].tx_count_at_tunnel, r.conns[0].txs.size()); return false; }
+        if (r.conns[0].txs.size() != ci + 1) { oracle = "C16.tx_count"; detail = strfmt("%zu transactions reported, %zu exchanges up to and including the tunnel set-up", r.conns[0].txs.size(), ci + 1); return false; }
+        return true;
+    }
+    // (iii) no tunnel: every exchange, before and after, is reported exactly; no request byte skipped or parsed twice
+    if (tunnel_seen[0] || tunnel_seen[1]) { oracle = "C16.unexpected_tunnel"; detail = "CONNECT refused or tunnel carrying plain HTTP, yet a call reported TUNNEL"; return false; }
+    if (!check_fidelity(p, r, "C16.after_connect", oracle, detail)) return false;
+    if (!check_bodies(p, r, oracle, detail)) { oracle = "C16." + oracle; return false; }
+    return true;
 }
 
 // ================================================================================================
@@ -232,7 +607,7 @@ Script connect_script(Rng &r, int id_base) {
 // ================================================================================================
 
 bool is_known_property(const std::string &prop) {
-    static const char *P[] = {"C01", "C03", "C05", "C09", "C10"};
+    static const char *P[] = {"C01", "C02", "C03", "C04", "C05", "C06", "C09", "C10", "C11", "C16"};
     for (auto q : P) if (prop == q) return true;
     return false;
 }
@@ -243,6 +618,9 @@ bool generate_plan(const std::string &prop, uint64_t seed, Plan &out) {
     Rng rng(seed);
     if (prop == "C01" || prop == "C05" || prop == "C09" || prop == "C10") chaos_plan(rng, out, prop);
     else if (prop == "C03") c03_plan(rng, out, seed);
+    else if (prop == "C02" || prop == "C04" || prop == "C06") wf_plan(rng, out, prop);
+    else if (prop == "C11") c11_plan(rng, out, seed);
+    else if (prop == "C16") c16_plan(rng, out);
     else return false;
     return true;
 }
@@ -258,7 +636,7 @@ bool g_debug_dump = false;
 static void debug_dump(const char *label, const RunResult &r) {
     if (!g_debug_dump) return;
     printf("---- %s: %zu tx, %zu calls\n", label, r.txs.size(), r.calls.size());
-    for (auto &c : r.calls) printf("  call %c len=%ld rc=%d consumed=%ld state=%s/%s cbs=%d\n", c.kind, c.len, c.rc, c.consumed, state_name(0, c.in_state), state_name(1, c.out_state), c.cbs);
+    for (auto &c : r.calls) printf("  call %c len=%ld rc=%d consumed=%ld state=%s/%s cbs=%d connflags=%u ntx=%d next_tx=%d\n", c.kind, c.len, c.rc, c.consumed, state_name(0, c.in_state), state_name(1, c.out_state), c.cbs, c.conn_flags_after, c.ntx_after, c.next_tx_after);
     for (auto &t : r.txs) {
         printf("  tx#%d conn=%d cbseq=%s body=%zu/%zu\n", t.ordinal, t.conn, t.cbseq_full.c_str(), t.body[0].size(), t.body[1].size());
         for (auto &kv : t.dump) printf("    %s = %s\n", kv.first.c_str(), esc_encode(kv.second.substr(0, 120)).c_str());
@@ -294,6 +672,38 @@ Verdict evaluate_plan(const Plan &p, Agg *agg) {
         if (v.violated) { v.oracle = "C03.via." + v.oracle; return v; }
         std::string o, d;
         if (!compare_runs_c03(a, b, o, d)) { v.violated = true; v.oracle = o; v.detail = d; }
+        return v;
+    }
+    if (prop == "C02" || prop == "C04" || prop == "C06") {
+        RunResult r; execute_plan(p, r); note_run(r, p, v, agg);
+        first_violation_of(r, "C01", v);
+        if (v.violated) { v.oracle = prop + ".via." + v.oracle; return v; }
+        std::string o, d; bool ok = true;
+        if (prop == "C02") ok = check_fidelity(p, r, "C02", o, d);
+        else if (prop == "C04") ok = check_pairing(p, r, o, d);
+        else {
+            first_violation_of(r, "C06", v); if (v.violated) return v;
+            ok = check_bodies(p, r, o, d);
+            if (ok) ok = check_fidelity(p, r, "C06.next_message", o, d);   // "the bytes following the body start the next message"
+        }
+        if (!ok) { v.violated = true; v.oracle = o; v.detail = d; }
+        return v;
+    }
+    if (prop == "C11") {
+        RunResult r; execute_plan(p, r); note_run(r, p, v, agg);
+        first_violation_of(r, "C01", v);
+        if (v.violated) { v.oracle = prop + ".via." + v.oracle; return v; }
+        std::string o, d;
+        if (!check_c11(p, r, o, d, agg)) { v.violated = true; v.oracle = o; v.detail = d; }
+        return v;
+    }
+    if (prop == "C16") {
+        RunResult r; execute_plan(p, r); note_run(r, p, v, agg);
+        first_violation_of(r, "C01", v); if (!v.violated) first_violation_of(r, "C09", v);
+        if (v.violated) { v.oracle = prop + ".via." + v.oracle; return v; }
+        std::string o, d;
+        if (!check_c16(p, r, o, d)) { v.violated = true; v.oracle = o; v.detail = d; }
+        if (agg) agg->inc(p.cfg.get("c16_expect_tunnel", 0) ? "c16.tunnel_expected" : "c16.http_resumes");
         return v;
     }
     v.violated = true; v.oracle = "machinery.unknown_property"; v.detail = prop;
